@@ -345,9 +345,19 @@ class Handles:
                 for c in shapes:
                     ok = ok and c[0] == "call" and sname(c[1]) == meth and c[2] and c[2][0][0] == "field" and c[2][0][2] == cur_field and \
                         len(c[2]) == 2 and c[2][1][0] == "arg" and c[2][1][1] == 1
+                # ... and nothing else happens: any other call (a resize of the buffer, a second seek) is behaviour the
+                # cursor does not have
+                extra = []
+                for cb in self.inter.code_bodies(b):
+                    for s_ in self.inter.sites(cb):
+                        if sname(s_.path) == meth or s_.short in ("Try::branch", "FromResidual::from_residual", "From::from", "Into::into"):
+                            continue
+                        extra.append(s_.short)
+                if extra:
+                    ok = False
                 n += 1
                 rep.ob(rule_del, b.id, "%s returns the cursor's %s(arg) unchanged" % (meth, meth), ok, "" if ok else
-                       "the writer's %s is not a plain delegation to its Cursor" % meth, b.span)
+                       "the writer's %s is not a plain delegation to its Cursor%s" % (meth, (" (it also calls %s)" % ", ".join(sorted(set(extra)))) if extra else ""), b.span)
         # publication
         pub = trait_method(facts, self.writer, ("::Write",), "flush") if not self.asyncw else None
         drop = trait_method(facts, self.writer, ("::Drop",), "drop")
